@@ -42,6 +42,7 @@ def mRank (J : Nat) : MainPc → Nat
   | .poll => J + 9
   | .pollDead false => J + 10
   | .sendIntr => J + 10
+  | .idle => J + 11
 def muM (s : S) : Nat := mRank s.joinOrder.length s.mainPc + (if s.intr then 3 else 0)
 
 def mu (s : S) : Nat := muM s + muO s + muE s + muI s
@@ -53,7 +54,7 @@ def Terminal (s : S) : Prop :=
 instance (s : S) : Decidable (Terminal s) := by unfold Terminal; infer_instance
 
 def preJoin : MainPc → Bool
-  | .poll => true | .pollDead _ => true | .sendIntr => true | .settleCheck => true | .settleCancel => true
+  | .idle => true | .poll => true | .pollDead _ => true | .sendIntr => true | .settleCheck => true | .settleCancel => true
   | .setFin => true | _ => false
 
 /-- facts about reachable states that the termination argument needs -/
@@ -239,6 +240,7 @@ theorem mainStep_muM_le (s : S) (he : EnvDone s) :
     muM (mainStep s) + (if s.mainPc = .setFin then 1 else 0) ≤ muM s := by
   have hJ : 1 ≤ s.joinOrder.length := by simp [S.joinOrder]
   cases hm : s.mainPc with
+  | idle => simp [mainStep, muM, mRank, hm, S.joinOrder]
   | poll =>
     simp only [mainStep, hm]
     split
@@ -290,6 +292,7 @@ theorem mainStep_muM_lt (s : S) (he : EnvDone s) (hen : EnMain s = true) :
     muM (mainStep s) + (if s.mainPc = .setFin then 1 else 0) < muM s := by
   have hJ : 1 ≤ s.joinOrder.length := by simp [S.joinOrder]
   cases hm : s.mainPc with
+  | idle => simp [mainStep, muM, mRank, hm, S.joinOrder]
   | poll =>
     simp only [mainStep, hm]
     split
@@ -521,6 +524,7 @@ theorem mainStep_finOrPre (s : S) (h : s.fin = true ∨ preJoin s.mainPc = true 
   rcases h with h | h | h
   · exact Or.inl ((mainStep_stdin_frame s).2.2.2.2.2.2 h)
   · cases hm : s.mainPc with
+    | idle => right; left; simp [mainStep, hm, preJoin]
     | poll => right; left; simp only [mainStep, hm]; split <;> rfl
     | sendIntr => right; left; simp [mainStep, hm, preJoin]
     | pollDead b => right; left; simp only [mainStep, hm]; unfold leaveWait; (repeat' split) <;> rfl
@@ -656,6 +660,7 @@ theorem progress (s : S) (hw : TermWF s) (hn : ¬ Terminal s) : ∃ a, En s a = 
           rcases hed with h | h
           · rw [hpty] at h; cases h
           · simp [S.finished, h]
+    | idle => rfl
     | poll => rfl
     | pollDead b => rfl
     | sendIntr => rfl
@@ -729,6 +734,7 @@ theorem enMain_congr (s t : S) (ho : t.opts = s.opts) (hm : t.mainPc = s.mainPc)
           exact finished_congr s t _ ho h1 h2 h3 (by simp) (by simp) h
       · exact Or.inr h
   | done => simp [hpc] at he
+  | idle => rfl
   | poll => rfl
   | pollDead b => rfl
   | sendIntr => rfl
@@ -964,10 +970,10 @@ theorem termWF_run (s : S) (evs : List Ev) (h : TermWF s) : TermWF (run s evs) :
     | act a => exact termWF_step s a h
     | env e => exact termWF_env s e h
 
-theorem termWF_init (hi ht w p e : Bool) (o er : List Chunk) (ins : List InItem) (ho sf : Bool) (n : Nat) :
-    TermWF (S.init hi ht w p e o er ins ho sf n) := by
+theorem termWF_init (hi ht w p e : Bool) (o er : List Chunk) (ins : List InItem) (ho sf : Bool) (n : Nat) (asy : Bool) :
+    TermWF (S.init hi ht w p e o er ins ho sf n asy) := by
   refine ⟨?_, by simp [S.init]⟩
-  cases sf <;> simp [S.init, preJoin]
+  cases sf <;> cases asy <;> simp [S.init, preJoin]
 
 /-- once `run` has returned the timer is no longer armed -/
 structure DoneDisarmed (s : S) : Prop where
@@ -1054,8 +1060,8 @@ theorem doneDisarmed_run (s : S) (evs : List Ev) (h : DoneDisarmed s) : DoneDisa
     | act a => exact doneDisarmed_step s a h
     | env e => exact doneDisarmed_env s e h
 
-theorem doneDisarmed_init (hi ht w p e : Bool) (o er : List Chunk) (ins : List InItem) (ho sf : Bool) (n : Nat) :
-    DoneDisarmed (S.init hi ht w p e o er ins ho sf n) := by
-  cases ht <;> cases sf <;> constructor <;> simp [S.init]
+theorem doneDisarmed_init (hi ht w p e : Bool) (o er : List Chunk) (ins : List InItem) (ho sf : Bool) (n : Nat) (asy : Bool) :
+    DoneDisarmed (S.init hi ht w p e o er ins ho sf n asy) := by
+  cases ht <;> cases sf <;> cases asy <;> constructor <;> simp [S.init]
 
 end Inv
